@@ -42,6 +42,7 @@ import (
 	"mellium.im/sasl"
 	"mellium.im/xmpp"
 	"mellium.im/xmpp/jid"
+	"mellium.im/xmpp/stream"
 	nx "verifharness/c02/negx"
 	"verifharness/hx"
 )
@@ -68,6 +69,27 @@ type c2Case struct {
 	XOuts   []nx.Outcome `json:"x_outs,omitempty"` // what the extra feature's Negotiate returns, call by call
 	// Reuse: further sessions that use the same StartTLS feature value (other domains)
 	Reuse []string `json:"reuse,omitempty"`
+	// Inter: sessions of these domains share one StartTLS feature value and run
+	// CONCURRENTLY; Order lists, step by step, which session advances next. The
+	// steps of a session are: start (its peer answers the stream header), proceed
+	// (its peer answers the STARTTLS request), handshake (its peer's TLS server
+	// answers the ClientHello, and everything after that).
+	Inter *interSpec `json:"inter,omitempty"`
+}
+
+type interSpec struct {
+	Domains []string `json:"domains"`
+	Order   []int    `json:"order"`
+}
+
+// info is what Session.In() reports.
+type info struct {
+	ID    string `json:"id"`
+	Ver   string `json:"version"`
+	Lang  string `json:"lang"`
+	XMLNS string `json:"xmlns"`
+	From  string `json:"from"`
+	To    string `json:"to"`
 }
 
 func (c *c2Case) hsOK() bool { return c.HsMode == "ok" }
@@ -85,6 +107,7 @@ type observed struct {
 	SentTLS int          `json:"sent_tls"` // TLS-layer script items the peer sent
 	Proceed bool         `json:"proceed"`  // the peer answered the STARTTLS request with <proceed/>
 	Feats   []string     `json:"feats"`    // name spaces Session.Feature reports as advertised, after NewSession returned
+	Info    info         `json:"in"`       // Session.In() after NewSession returned
 	Unexp   string       `json:"unexpected,omitempty"`
 	ErrText string       `json:"err,omitempty"`
 	Choices []string     `json:"-"`
@@ -143,6 +166,34 @@ type peer struct {
 	unexp     string
 	proceeded bool
 	in, tin   []nx.Item
+	gates     *gates
+	started   bool
+}
+
+// gates hold a scripted peer at three points so that sessions sharing a
+// feature value can be advanced in a chosen order: 0 before the stream header
+// is answered, 1 before the STARTTLS request is answered, 2 before the TLS
+// server answers the ClientHello.  Arrival at a gate, and the return of
+// NewSession, are reported on ev.
+type gates struct {
+	g  [3]chan struct{}
+	ev chan string
+}
+
+func newGates() *gates {
+	g := &gates{ev: make(chan string, 8)}
+	for i := range g.g {
+		g.g[i] = make(chan struct{})
+	}
+	return g
+}
+
+func (g *gates) wait(k int) {
+	if g == nil {
+		return
+	}
+	g.ev <- fmt.Sprintf("at:%d", k)
+	<-g.g[k]
 }
 
 var (
@@ -179,6 +230,8 @@ func (p *peer) sendNext(script *[]nx.Item, w func([]byte) error, eof func(), cou
 			return
 		}
 		if it.Kind == "header" && !it.Bad {
+			// whether or not the client accepts this header (it may lack an
+			// attribute): if it does, it finds the next item; if not, it has gone
 			continue
 		}
 		if len(*script) == 0 {
@@ -215,11 +268,16 @@ func (p *peer) run() {
 			}
 			if m := reHeader.Find(pending); m != nil {
 				pending = pending[len(m):]
+				if !p.started {
+					p.started = true
+					p.gates.wait(0)
+				}
 				p.sendNext(&p.in, wr, p.conn.CloseWrite, nil)
 				continue
 			}
 			if m := reStartTLS.Find(pending); m != nil {
 				pending = pending[len(m):]
+				p.gates.wait(1)
 				if len(p.in) == 0 {
 					p.conn.CloseWrite()
 					continue
@@ -313,6 +371,7 @@ func (p *peer) runTLS() {
 			p.mu.Lock()
 			p.sni = append(p.sni, chi.ServerName)
 			p.mu.Unlock()
+			p.gates.wait(2)
 			if p.c.HsMode == "abort" {
 				return nil, errors.New("verif: scripted handshake refusal")
 			}
@@ -461,14 +520,30 @@ func clientTLSConfig(c *c2Case) *tls.Config {
 	return cfg
 }
 
-func execute(c *c2Case, domain string, stls *xmpp.StreamFeature) (observed, []nx.FeatSpec) {
-	a, b := nx.NewDuplex()
-	p := &peer{conn: b, c: c, domain: domain, in: append([]nx.Item(nil), c.In...), tin: append([]nx.Item(nil), c.TLSIn...)}
-	pdone := make(chan struct{})
-	go func() { defer close(pdone); p.run() }()
+// running is one session under way.
+type running struct {
+	c      *c2Case
+	domain string
+	p      *peer
+	a, b   *nx.DuplexEnd
+	log    *nx.Log
+	specs  []nx.FeatSpec
+	pdone  chan struct{}
+	done   chan struct{}
+	sess   *xmpp.Session
+	err    error
+	pmsg   string
+}
 
-	log := &nx.Log{}
-	feats, specs := buildFeatures(c, log, stls)
+// start launches the scripted peer and NewSession (each on its own goroutine).
+func start(c *c2Case, domain string, stls *xmpp.StreamFeature, g *gates) *running {
+	r := &running{c: c, domain: domain, log: &nx.Log{}, pdone: make(chan struct{}), done: make(chan struct{})}
+	r.a, r.b = nx.NewDuplex()
+	r.p = &peer{conn: r.b, c: c, domain: domain, in: append([]nx.Item(nil), c.In...), tin: append([]nx.Item(nil), c.TLSIn...), gates: g}
+	go func() { defer close(r.pdone); r.p.run() }()
+
+	feats, specs := buildFeatures(c, r.log, stls)
+	r.specs = specs
 	var teeIn, teeOut bytes.Buffer
 	neg := xmpp.NewNegotiator(func(*xmpp.Session, *xmpp.StreamConfig) xmpp.StreamConfig {
 		sc := xmpp.StreamConfig{Features: feats}
@@ -480,14 +555,37 @@ func execute(c *c2Case, domain string, stls *xmpp.StreamFeature) (observed, []nx
 		}
 		return sc
 	})
+	go func() {
+		r.pmsg = hx.Catch(func() {
+			r.sess, r.err = xmpp.NewSession(context.Background(), jid.MustParse("srv."+domain), jid.MustParse("me@"+domain), r.a, xmpp.SessionState(c.Bits), neg)
+		})
+		close(r.done)
+		if g != nil {
+			g.ev <- "done"
+		}
+	}()
+	return r
+}
+
+func execute(c *c2Case, domain string, stls *xmpp.StreamFeature) (observed, []nx.FeatSpec) {
+	return start(c, domain, stls, nil).collect()
+}
+
+// collect waits for NewSession to return and gathers the observations.
+func (r *running) collect() (observed, []nx.FeatSpec) {
+	c, p, a, b, log, specs, pdone := r.c, r.p, r.a, r.b, r.log, r.specs, r.pdone
+	done := true
+	select {
+	case <-r.done:
+	case <-time.After(watchdog):
+		done = false
+	}
 	var sess *xmpp.Session
 	var err error
 	var pmsg string
-	done := hx.WithTimeout(watchdog, func() {
-		pmsg = hx.Catch(func() {
-			sess, err = xmpp.NewSession(context.Background(), jid.MustParse("srv."+domain), jid.MustParse("me@"+domain), a, xmpp.SessionState(c.Bits), neg)
-		})
-	})
+	if done {
+		sess, err, pmsg = r.sess, r.err, r.pmsg
+	}
 	var o observed
 	switch {
 	case !done:
@@ -507,6 +605,11 @@ func execute(c *c2Case, domain string, stls *xmpp.StreamFeature) (observed, []nx
 			if _, ok := sess.Feature(ns); ok {
 				o.Feats = append(o.Feats, ns)
 			}
+		}
+		in := sess.In()
+		o.Info = info{ID: in.ID, Lang: in.Lang, XMLNS: in.XMLNS, From: in.From.String(), To: in.To.String()}
+		if in.Version != (stream.Version{}) {
+			o.Info.Ver = in.Version.String()
 		}
 	}
 	a.Close()
@@ -679,6 +782,38 @@ func oracle(c *c2Case, domain string, o *observed) [][2]string {
 			}
 		}
 	}
+	// ... and so for Session.In(): on an established session every attribute is
+	// the one of the last stream header the peer sent over TLS, and an attribute
+	// that header omits is reported empty; from/to are the addresses the session
+	// was created with (a header without id, version or content name space must
+	// have been refused, so expecting "" for them makes that a failure too)
+	if o.Class == "ok" && len(o.SNI) > 0 {
+		var last *nx.Item
+		for i := 0; i < o.SentTLS && i < len(c.TLSIn); i++ {
+			if c.TLSIn[i].Kind == "header" {
+				last = &c.TLSIn[i]
+			}
+		}
+		if last != nil {
+			a := nx.HeaderAttrs(*last, c.Bits&nx.S2S != 0, domain)
+			want := func(p *string) string {
+				if p == nil {
+					return ""
+				}
+				return *p
+			}
+			got := []string{o.Info.ID, o.Info.Ver, o.Info.Lang, o.Info.XMLNS}
+			for i, name := range []string{"id", "version", "xml:lang", "xmlns"} {
+				if got[i] != want(a[i]) {
+					fail("cleartext-reinterpreted/stream-info-survives-tls", fmt.Sprintf("Session.In() reports %s=%q for the protected stream, its header said %q (absent = \"\")", name, got[i], want(a[i])))
+					break
+				}
+			}
+			if o.Info.From != "srv."+domain || o.Info.To != "me@"+domain {
+				fail("cleartext-reinterpreted/stream-info-survives-tls", fmt.Sprintf("Session.In() reports from=%q to=%q", o.Info.From, o.Info.To))
+			}
+		}
+	}
 	// no feature that needs a secured stream is negotiated before the handshake
 	for _, e := range o.CB {
 		if e.K == "neg" && e.Space != nx.NSStartTLS && e.St&nx.Secure == 0 {
@@ -745,7 +880,21 @@ var (
 
 func feat(cs ...nx.Child) nx.Item { return nx.Item{Kind: "features", Children: cs} }
 
-var hdr = nx.Item{Kind: "header"}
+// the header of the clear-text stream carries an id and a language of its own
+var hdr = nx.Item{Kind: "header", ID: "c1", Lang: "en"}
+
+// headers of the protected stream: complete ones, and ones that leave out or
+// change an attribute the clear-text header had
+func tlsHeaders() []nx.Item {
+	h := func(id, lang string, omit ...string) nx.Item {
+		return nx.Item{Kind: "header", ID: id, Lang: lang, Omit: omit}
+	}
+	return []nx.Item{
+		hdr, h("t1", "de"), h("t1", ""), h("t1", "de", "lang"), h("t1", "de", "id"), h("t1", "de", "version"),
+		h("t1", "de", "xmlns"), h("t1", "de", "from"), h("t1", "de", "to"), h("t1", "de", "from", "to", "lang"),
+		{Kind: "header", ID: "t1", From: "evil.example"}, {Kind: "header", ID: "t1", To: "other@example.net"},
+	}
+}
 
 // the grammar of peer behaviours
 func clearLists() []nx.Item {
@@ -792,6 +941,7 @@ func tlsScripts() [][]nx.Item {
 		{hdr, feat(smChild, saslChild), hdr, feat(bindChild, smChild)},
 		{hdr, feat(smChild), hdr, feat(saslChild), hdr, feat(bindChild)},
 		{hdr, feat(saslChild, rosterChld), hdr, feat(bindChild, sm3Child)},
+		{hdr, feat(evilChild, smReqChild)},
 		{{Kind: "header", Bad: true}},
 		{hdr, {Kind: "garbage"}},
 		{hdr, feat(tlsChild(true))},
@@ -859,6 +1009,23 @@ func genCase(r *hx.Rand) *c2Case {
 			c.XOuts = append(c.XOuts, xOutcomes[r.Intn(len(xOutcomes))])
 		}
 	}
+	// the headers of the protected stream: mostly complete, sometimes lacking an attribute
+	th := tlsHeaders()
+	c.TLSIn = append([]nx.Item(nil), c.TLSIn...)
+	for i := range c.TLSIn {
+		if c.TLSIn[i].Kind == "header" && !c.TLSIn[i].Bad {
+			switch {
+			case r.Chance(1, 2):
+				c.TLSIn[i] = th[1]
+			case r.Chance(1, 2):
+				c.TLSIn[i] = th[r.Intn(len(th))]
+			}
+		}
+	}
+	// the clear-text header now and then lacks one too
+	if r.Chance(1, 10) && !c.In[0].Bad {
+		c.In[0].Omit = []string{[]string{"lang", "from", "to", "id", "version", "xmlns"}[r.Intn(6)]}
+	}
 	return c
 }
 
@@ -896,14 +1063,21 @@ func coqCase(c *c2Case, specs []nx.FeatSpec, domain string, o *observed) string 
 		hs = append(hs, hx.CoqBool(b))
 	}
 	l := nx.CoqList
-	return fmt.Sprintf("mkC2 %s %s %s %s %s %s %s %s %s %s %s %s %s %s %s %s %s",
+	s2s := c.Bits&nx.S2S != 0
+	inf := fmt.Sprintf("(mkI %s %s %s %s %s %s)", nx.CoqStr(o.Info.ID), nx.CoqStr(o.Info.Ver), nx.CoqStr(o.Info.Lang),
+		nx.CoqStr(o.Info.XMLNS), nx.CoqStr(o.Info.From), nx.CoqStr(o.Info.To))
+	return fmt.Sprintf("mkC2 %s %s %s %s %s %s %s %s %s %s %s %s %s %s %s %s %s %s",
 		hx.CoqBool(c.Tee != 0), nx.CoqConfig(specs, c.hsOK(), domain), nx.CoqOptStr(c.TLSName), nx.CoqN(c.Bits),
-		nx.CoqItems(c.In), nx.CoqItems(c.TLSIn), l(outs), l(chs),
-		hx.CoqBool(o.Class == "ok"), nx.CoqN(o.Bits), l(wire), l(cbs), l(sni), l(hs), hx.CoqNat(o.SentTLS), l(univ), l(feats))
+		nx.CoqItems(c.In, s2s, domain), nx.CoqItems(c.TLSIn, s2s, domain), l(outs), l(chs),
+		hx.CoqBool(o.Class == "ok"), nx.CoqN(o.Bits), l(wire), l(cbs), l(sni), l(hs), hx.CoqNat(o.SentTLS), l(univ), l(feats), inf)
 }
 
 // one script, the four tee modes, optional further sessions with the same feature value
 func (x *runner) run(c *c2Case) {
+	if c.Inter != nil {
+		x.runInterleaved(c)
+		return
+	}
 	var base *observed
 	for tee := 0; tee < 4; tee++ {
 		cc := *c
@@ -932,6 +1106,97 @@ func (x *runner) run(c *c2Case) {
 			}
 		}
 	}
+}
+
+// runInterleaved runs the sessions of c.Inter.Domains concurrently with one
+// StartTLS feature value and advances them in the order c.Inter.Order; every
+// step is complete (the session is blocked at its next gate, or over) before
+// the next one is released, so the interleaving is exact and repeatable.
+func (x *runner) runInterleaved(c *c2Case) {
+	n := len(c.Inter.Domains)
+	f := xmpp.StartTLS(clientTLSConfig(c))
+	rs := make([]*running, n)
+	gs := make([]*gates, n)
+	cs := make([]*c2Case, n)
+	over := make([]bool, n)
+	stuck := false
+	wait := func(i int) {
+		if over[i] || stuck {
+			return
+		}
+		select {
+		case ev := <-gs[i].ev:
+			if ev == "done" {
+				over[i] = true
+			}
+		case <-time.After(watchdog):
+			stuck = true
+		}
+	}
+	for i, d := range c.Inter.Domains {
+		cc := *c
+		cc.Domain = d
+		cs[i] = &cc
+		gs[i] = newGates()
+		rs[i] = start(&cc, d, &f, gs[i])
+	}
+	for i := range rs {
+		wait(i) // every session has sent its stream header
+	}
+	next := make([]int, n)
+	for _, i := range c.Inter.Order {
+		if i < 0 || i >= n || next[i] >= 3 {
+			continue
+		}
+		close(gs[i].g[next[i]])
+		next[i]++
+		wait(i)
+	}
+	for i := range rs {
+		for ; next[i] < 3; next[i]++ {
+			close(gs[i].g[next[i]])
+		}
+	}
+	for i := range rs {
+		o, specs := rs[i].collect()
+		if os.Getenv("VERIF_DEBUG") != "" {
+			b, _ := json.Marshal(o)
+			fmt.Fprintf(os.Stderr, "interleaved session %d domain=%s %s\n", i, cs[i].Domain, b)
+		}
+		if stuck && o.Class != "timeout" {
+			x.res.Fail("C02/timeout", "an interleaved history did not advance", c)
+		}
+		x.record(cs[i], specs, cs[i].Domain, &o, i)
+	}
+}
+
+// interleavings lists every order of the steps (three per session) of n sessions.
+func interleavings(n int) [][]int {
+	var out [][]int
+	left := make([]int, n)
+	for i := range left {
+		left[i] = 3
+	}
+	var cur []int
+	var rec func()
+	rec = func() {
+		done := true
+		for i := 0; i < n; i++ {
+			if left[i] > 0 {
+				done = false
+				left[i]--
+				cur = append(cur, i)
+				rec()
+				cur = cur[:len(cur)-1]
+				left[i]++
+			}
+		}
+		if done {
+			out = append(out, append([]int(nil), cur...))
+		}
+	}
+	rec()
+	return out
 }
 
 func diff(a, b *observed) string {
@@ -970,6 +1235,9 @@ func (x *runner) record(c *c2Case, specs []nx.FeatSpec, domain string, o *observ
 	classes := []string{"stage:" + stage, "hs:" + c.HsMode, fmt.Sprintf("tee:%d", c.Tee), "feats:" + c.Feat}
 	if si > 0 {
 		classes = append(classes, "reused-feature-value")
+	}
+	if c.Inter != nil {
+		classes = append(classes, "interleaved-sessions")
 	}
 	if len(c.In) > 3 && isProceed(&c.In[2]) {
 		classes = append(classes, "pipelined-behind-proceed")
@@ -1019,6 +1287,7 @@ func main() {
 		if o.Search {
 			n = 3000
 		}
+		interleaved(x, r, o.Thorough() || o.Search)
 		for i := 0; i < n; i++ {
 			c := genCase(r)
 			if r.Chance(1, 6) && c.HsMode == "nilcfg" || r.Chance(1, 12) {
@@ -1037,6 +1306,48 @@ func main() {
 	res.CaseFiles = append(res.CaseFiles, x.cf.Write(o.Out, 500)...)
 	res.Extra["model_cases"] = x.cf.Len()
 	res.Write(o.Out)
+}
+
+// interleaved: histories of sessions that share one feature value and overlap.
+// Two sessions: every interleaving of their steps (20), with a nil and with an
+// explicit config; three sessions: seeded orders (all 1680 in the thorough tier).
+func interleaved(x *runner, r *hx.Rand, all bool) {
+	proceed := nx.Item{Kind: "elem", Space: nx.NSStartTLS, Local: "proceed"}
+	failure := nx.Item{Kind: "elem", Space: nx.NSStartTLS, Local: "failure"}
+	full := []nx.Item{hdr, feat(saslChild), hdr, feat(bindChild)}
+	mk := func(domains []string, order []int, tee int, name *string, reply nx.Item) *c2Case {
+		c := &c2Case{Feat: "tsb", HsMode: "nilcfg", TLSName: name, Tee: tee, Inter: &interSpec{Domains: domains, Order: order}}
+		if name != nil {
+			c.HsMode = "ok"
+		}
+		c.Domain = domains[0]
+		c.In = []nx.Item{hdr, feat(tlsChild(true)), reply}
+		c.TLSIn = full
+		return c
+	}
+	two := []string{"example.net", "example.org"}
+	for k, order := range interleavings(2) {
+		x.run(mk(two, order, k%4, nil, proceed))
+		if k%4 == 0 || all {
+			x.run(mk(two, order, (k/4)%4, sp("tls.example.net"), proceed))
+		}
+		if k%5 == 0 {
+			x.run(mk(two, order, 0, nil, failure))
+		}
+	}
+	three := []string{"example.net", "example.org", "third.example"}
+	orders := interleavings(3)
+	m := 12
+	if all {
+		m = len(orders)
+	}
+	for k := 0; k < m; k++ {
+		order := orders[k]
+		if !all {
+			order = orders[r.Intn(len(orders))]
+		}
+		x.run(mk(three, order, k%4, nil, proceed))
+	}
 }
 
 // exhaustive: the product of the behaviour grammar (thorough tier).
@@ -1073,7 +1384,14 @@ func exhaustive(x *runner) {
 					if strings.Contains(c.Feat, "x") {
 						c.XOuts = []nx.Outcome{xOutcomes[i%len(xOutcomes)], xOutcomes[(i/7)%len(xOutcomes)]}
 					}
-					c.TLSIn = t
+					c.TLSIn = append([]nx.Item(nil), t...)
+					if th := tlsHeaders(); i%2 == 0 {
+						for j := range c.TLSIn {
+							if c.TLSIn[j].Kind == "header" && !c.TLSIn[j].Bad {
+								c.TLSIn[j] = th[(i/2+j)%len(th)]
+							}
+						}
+					}
 					x.run(c)
 				}
 			}
